@@ -450,6 +450,31 @@ func runTx5(c *core.Ctx) {
 		if len(elems) == 1 {
 			bound = an.PathOf(elems[0])
 		}
+		// the stored seed read back: the destination of the Scan on the seed table
+		loaded := ""
+		var loadedVar *ssa.Alloc
+		loadOf := func(v ssa.Value) *ssa.Alloc {
+			if mi, isMI := v.(*ssa.MakeInterface); isMI {
+				v = mi.X
+			}
+			if u, isU := v.(*ssa.UnOp); isU && u.Op == token.MUL {
+				a, _ := u.X.(*ssa.Alloc)
+				return a
+			}
+			return nil
+		}
+		for _, ci := range calls(seedFn) {
+			if call, ok := ci.(*ssa.Call); ok && strings.HasSuffix(an.CalleeName(&call.Call), "sql.Row).Scan") {
+				if dst, _ := an.VariadicElems(call.Call.Args[len(call.Call.Args)-1]); len(dst) == 1 {
+					loaded = an.PathOf(dst[0])
+					if mi, isMI := dst[0].(*ssa.MakeInterface); isMI {
+						loadedVar, _ = mi.X.(*ssa.Alloc)
+					} else {
+						loadedVar, _ = dst[0].(*ssa.Alloc)
+					}
+				}
+			}
+		}
 		var rets []string
 		okRet := true
 		for _, rb := range an.ReturnBlocks(seedFn) {
@@ -457,7 +482,15 @@ func runTx5(c *core.Ctx) {
 			if an.IsNilConst(r.Results[1]) {
 				p := an.PathOf(r.Results[0])
 				rets = append(rets, p)
-				if p != bound {
+				afterInsert := ins.Block() == rb || ins.Block().Dominates(rb)
+				switch {
+				case afterInsert && p == bound:
+					// a fresh seed: the one that was just persisted
+				case !afterInsert && !an.Reachable(ins.Block(), rb, nil, nil) && loaded != "" && p == loaded:
+					// no insert on this way out: the seed read from the table
+				case loadedVar != nil && loadOf(r.Results[0]) == loadedVar && len(elems) == 1 && loadOf(elems[0]) == loadedVar:
+					// one variable for both (read back, or drawn and persisted)
+				default:
 					okRet = false
 				}
 			}
